@@ -50,12 +50,11 @@ def limit_df(df, fs, start=None, stop=None, reset_indices=True):
 
     # Ensure arguments are within valid range
     check_param_range(fs, 'fs', (0, np.inf))
-    check_param_range(start, 'start', (0, stop))
-    check_param_range(stop, 'stop', (start, np.inf))
+    start = 0 if start is None else start
+    check_param_range(start, 'start', (0, np.inf if stop is None else stop))
+    check_param_range(np.inf if stop is None else stop, 'stop', (start, np.inf))
 
     center_e, side_e = get_extrema_df(df)
-
-    start = 0 if start is None else start
 
     df = df[df['sample_last_' + side_e].values >= start*fs]
 
